@@ -12,7 +12,11 @@ package main
 // as derived facts  T == mulB(k) / T == lc2(Q,a,b). Only instances of axioms the function's
 // contract lists under `uses` are generated; each is a consequence of that axiom.
 
-import "math/big"
+import (
+	"fmt"
+	"math/big"
+	"os"
+)
 
 type closedForm struct {
 	q    *Term // nil: multiple of B; else lc2 base point term
@@ -104,8 +108,51 @@ func instantiateGroupAxioms(facts []*Term, uses map[string]bool, dConst, pConst 
 		}
 		return closedForm{}, false
 	}
+	// conditional definitions  c ==> X == F1,  !c ==> X == F2  (callee contracts that distinguish a sign bit)
+	type condDef struct {
+		c, x, rhs *Term
+	}
+	var conds []condDef
+	for _, f := range flat {
+		if f.op == OImp && f.args[1].op == OEq && isPt(f.args[1].args[0]) {
+			conds = append(conds, condDef{f.args[0], f.args[1].args[0], f.args[1].args[1]})
+		}
+	}
+	if os.Getenv("GOVC_DEBUG") != "" {
+		for _, c := range conds {
+			fmt.Fprintf(os.Stderr, "gcond: %s ==> X%d == %s\n", c.c.str(3), c.x.id, c.rhs.str(1))
+		}
+	}
 	for changed := true; changed; {
 		changed = false
+		for i := range conds {
+			for j := range conds {
+				a, b := conds[i], conds[j]
+				if i == j || a.x != b.x || Not(a.c) != b.c {
+					continue
+				}
+				if _, ok := known[a.x.id]; ok {
+					continue
+				}
+				ca, ok1 := direct(a.rhs)
+				cb, ok2 := direct(b.rhs)
+				if os.Getenv("GOVC_DEBUG") != "" {
+					_, k0 := direct(a.rhs.args[0])
+					_, k1 := direct(a.rhs.args[1])
+					fmt.Fprintf(os.Stderr, "gpair X%d: ok1=%v ok2=%v arg0known=%v arg1known=%v\n", a.x.id, ok1, ok2, k0, k1)
+				}
+				if !ok1 || !ok2 || ca.q != cb.q {
+					continue
+				}
+				cf := closedForm{q: ca.q, b: Ite(a.c, ca.b, cb.b)}
+				if ca.q != nil {
+					cf.a = Ite(a.c, ca.a, cb.a)
+				}
+				if note(a.x, cf, true) {
+					changed = true
+				}
+			}
+		}
 		for _, f := range flat {
 			if f.op != OEq || !isPt(f.args[0]) {
 				continue
